@@ -15,6 +15,7 @@ META = {
         "R07.1": "Best::select returns ok_or(Iterator::max(IntoIterator::into_iter(population))); Worst likewise with Iterator::min; on every path",
         "R07.2": "Tournament::select's success path returns Iterator::max over exactly one choose_multiple(population.as_ref(), rng, self.size) call",
         "R07.4": "the ordering Best/Worst/Tournament maximise is lawful: EcIndividual orders by test_results, TestResults by total_result, Error by the reversed payload order, every comparison method evaluated under all payload relations (C15's R15.2/R15.4/R15.5 order rules, re-evaluated)",
+        "R07.5": "the configured tournament size is the size used: Tournament::new stores its argument, of_size::<N>() stores NonZeroUsize::new(N)'s payload, binary() is of_size::<2>()",
         "R07.3": "the only error return of Tournament::select is guarded by Lt(population.size(), self.size) (strict), and sampling happens only on its false edge",
     },
     "trusted_base": ["rustc type checker / MIR construction (nightly 1.97)", "std Iterator::max/min", "rand 0.9 IndexedRandom::choose_multiple (uniform k-subset without replacement)", "uecfacts driver + uecheck rule engine"],
@@ -154,3 +155,26 @@ def check_tournament(ctx, only_rule):
     rules_c15.check_order_impls(ctx, "R07.4", "ec_core::individual::ec::EcIndividual", "EcIndividual", "test_results", False)
     rules_c15.check_order_impls(ctx, "R07.4", rules_c15.TR + "TestResults", "TestResults", "total_result", False)
     rules_c15.check_order_impls(ctx, "R07.4", rules_c15.TR + "Error", "Error", 0, True)
+
+    # R07.5: constructors
+    from .ctors import check_table, value_of
+    from .common import return_paths
+    check_table(ctx, "C07", "R07.5")
+    T = "ec_core::operator::selector::tournament::Tournament::"
+    f = ctx.fn(T + "of_size")
+    v = value_of(ctx, f)
+    okv = v is not None and v[0] == "agg" and v[2].endswith("Tournament::Tournament") and len(v[3]) == 1 and v[3][0][0] == "const" and "of_size" in str(v[3][0][2]) and "constant" in str(v[3][0][2])
+    ic = [g for g in ctx.F.fns.values() if g.kind == "InlineConst" and g.root == T + "of_size"]
+    okc = len(ic) == 1
+    if okc:
+        ctx.fns_analysed.add(ic[0].id)
+        rps = return_paths(ctx.paths(ic[0]))
+        okc = len(rps) == 1 and match(rps[0].ret, Field(Call("NonZero::new", lambda e: e[0] == "const" and str(e[2]).strip() == "N", nargs=1), 0, "Some"))
+    ctx.check(okv and okc, "R07.5", "Tournament::of_size::<N>-stores-NonZero::new(N)", short(v, 5) if v is not None else "-", f.at(),
+              bad_detail="of_size::<N>() must be Tournament::new(NonZeroUsize::new(N) payload); extracted %s with inline constant %s" % (
+                  short(v, 6) if v is not None else "-", "; ".join(short(p.ret, 6) for g in ic for p in return_paths(ctx.paths(g)))))
+    f = ctx.fn(T + "binary")
+    ps = return_paths(ctx.paths(f))
+    ctx.check(len(ps) == 1 and len(ctx.paths(f)) == 1 and ps[0].ret[0] == "call" and str(ps[0].ret[2]).endswith("Tournament::of_size::<2>") and len(ps[0].calls()) == 1, "R07.5",
+              "Tournament::binary=of_size::<2>", str(ps[0].ret[2]) if ps and ps[0].ret[0] == "call" else (short(ps[0].ret, 5) if ps else "-"), f.at(),
+              bad_detail="binary() must be of_size::<2>(); extracted " + (str(ps[0].ret[2]) if ps and ps[0].ret[0] == "call" else (short(ps[0].ret, 6) if ps else "-")))
